@@ -996,7 +996,9 @@ fn run_in_children(docs: &[(String, String)]) -> Vec<Option<String>> {
     let limit = Duration::from_secs(30);
     while out.len() < docs.len() {
         let start = out.len();
-        let child = Command::new(&exe).arg("tool").arg("c19view").stdin(Stdio::piped()).stdout(Stdio::piped()).stderr(Stdio::null()).spawn();
+        // the child may use 4 GiB of address space: a document that makes the crate allocate without bound
+        // kills the child (an abort, judged like a panic) instead of exhausting the machine for 30 s
+        let child = Command::new("sh").arg("-c").arg("ulimit -v 4194304 2>/dev/null; exec \"$0\" tool c19view").arg(&exe).stdin(Stdio::piped()).stdout(Stdio::piped()).stderr(Stdio::null()).spawn();
         let mut child = match child {
             Ok(c) => c,
             Err(_) => {
@@ -1281,7 +1283,12 @@ fn view_case(input: &Value, res: &VRes, line: &Option<String>) -> Case {
         other => other,
     };
     let (rc, rj) = match res {
-        VRes::Ok(b) => (format!("(VOk {})", cbool(*b)), json!({ "ok": b })),
+        // `ok` = the deserialised view could be laid out, rendered and (a small stand-alone glyph) rasterised
+        VRes::Ok(true) => ("(VOk true)".to_string(), json!({ "ok": true, "deserialised": true })),
+        VRes::Ok(false) => (
+            "(VOk false)".to_string(),
+            json!({ "ok": false, "deserialised": true, "failed_in": if raster_panic { "Glyph::rasterize" } else { "View::layout / View::render" } }),
+        ),
         VRes::Err => ("VErr".to_string(), json!("err")),
         VRes::Panic => ("VPanic".to_string(), json!("panic")),
         VRes::Abort => ("VPanic".to_string(), json!("abort")),
@@ -1544,8 +1551,9 @@ fn gen_glyph_fields(rng: &mut Rng) -> Vec<(String, J)> {
                         2 => {
                             // extreme numbers: negative, huge, tiny
                             let pick = |rng: &mut Rng| -> J {
-                                match rng.below(7) {
+                                match rng.below(8) {
                                     0 => J::F(-1.0),
+                                    7 => J::F(*rng.pick(&[1e18, 1e155, 1e300])),
                                     1 => J::F(1e308),
                                     2 => J::F(-1e308),
                                     3 => J::F(1e-300),
@@ -1838,6 +1846,30 @@ pub fn generate(rng: &mut Rng, n: usize, tier: &str) -> Vec<Value> {
         v.push(json!({"kind": "view", "what": "view", "doc": j_to_spec(&doc)}));
         let doc = obj(vec![("type", js("flex")), ("justify", js(justify))]);
         v.push(json!({"kind": "view", "what": "view", "doc": j_to_spec(&doc)}));
+    }
+    // a flex child with a factor next to a sibling that takes the whole main axis (an empty flex with a
+    // spreading justification does): the flex child is not laid out, its layout node keeps no children
+    for justify in ["start", "center", "end", "space-between", "space-around", "space-evenly"] {
+        for direction in ["horizontal", "vertical"] {
+            let eater = obj(vec![("type", js("flex")), ("direction", js(direction)), ("justify", js(justify))]);
+            let inner = obj(vec![("type", js("container")), ("child", obj(vec![("type", js("text")), ("text", js("ab"))]))]);
+            let kids = vec![obj(vec![("flex", J::F(0.5)), ("view", inner.clone())]), eater, obj(vec![("flex", J::U(2)), ("view", inner)])];
+            let doc = obj(vec![("type", js("flex")), ("direction", js(direction)), ("children", J::A(kids))]);
+            v.push(json!({"kind": "view", "what": "view", "doc": j_to_spec(&doc)}));
+        }
+    }
+    // a framed glyph whose border is far wider than any surface, in every regime of the unclamped arithmetic
+    // (slow, memory exhausted, f64 overflow), on each side, with and without a fill; value and text delivery
+    for (side, bw) in [(0usize, J::F(1e308)), (1, J::U(u64::MAX)), (2, J::F(1e18)), (3, J::F(1e155)), (2, J::F(1e308))] {
+        let mut widths = vec![J::F(1000.0), J::F(0.0), J::F(0.0), J::F(-1e308)];
+        widths[side] = bw;
+        let mut frame = vec![("border_width", J::A(widths)), ("border_color", js("#00ff0080"))];
+        if side % 2 == 0 {
+            frame.push(("fill_color", js("#102030")));
+            frame.push(("border_radius", J::A(vec![J::F(50.0), J::F(1e308), J::F(0.0), J::F(3.0)])));
+        }
+        let doc = obj(vec![("frame", obj(frame)), ("path", js("M0,0L1,1Z"))]);
+        v.push(json!({"kind": "view", "what": if side % 2 == 0 { "glyph_stream" } else { "glyph" }, "doc": j_to_spec(&doc)}));
     }
     // the spacing block of flex_layout: every justify value x 0..3 children x the three forms of a child (bare view,
     // {view}, {view, flex}) x both directions; layout_render lays each out under constraints with leftover space
